@@ -157,7 +157,9 @@ InvUndiffable == phase = "undiffable" => ~Diffable(A, B, T)
 Emit ==
     /\ HasDiff => PrintT(ToJson([op |-> "apply", ph |-> phase, T |-> A, D |-> D, exp |-> Apply(D, A, T)]))
     /\ (HasDiff /\ TextExpressible(D)) =>
-          PrintT(ToJson([op |-> "text", ph |-> phase, T |-> A, lines |-> DiffLines(D), exp |-> Apply(Norm(D), A, T)]))
+          /\ PrintT(ToJson([op |-> "text", ph |-> phase, T |-> A, lines |-> DiffLines(D), exp |-> Apply(Norm(D), A, T)]))
+          /\ (DiffLinesDocLast(D) # DiffLines(D) =>
+                PrintT(ToJson([op |-> "text", ph |-> phase, T |-> A, lines |-> DiffLinesDocLast(D), last |-> TRUE, exp |-> Apply(Norm(D), A, T)])))
     /\ phase \in {"pair", "undiffable"} =>
           PrintT(ToJson([op |-> "diff", ph |-> phase, A |-> A, B |-> B,
                          exp |-> IF phase = "pair" THEN Ok(B) ELSE [anyof |-> <<Err, Ok(B)>>]]))
